@@ -112,7 +112,7 @@ def rule_field_layer(ctx, cfg, prog, rule='R-FIELDLAYER'):
             inside += len(writes)
             qn = strip_tmpl(f['qn'])
             claimed.add(qn)
-            if qn not in PRIMITIVES and qn not in reported and is_field_rec(f.get('parent')):
+            if qn not in PRIMITIVES and qn not in reported and (is_field_rec(f.get('parent')) or (not f.get('method') and f['l'][0] in FIELD_FILES)):
                 # a helper of the field records that is reached only from decided primitives is part of them: their obligations (R-CANON
                 # with the helper inlined, the word-level identities of R-WORDALG/c++) are decided on the composition
                 if callers is None:
@@ -125,7 +125,7 @@ def rule_field_layer(ctx, cfg, prog, rule='R-FIELDLAYER'):
                         continue
                     seen.add(c)
                     cf = [g_ for g_ in prog.functions.values() if strip_tmpl(g_['qn']) == c]
-                    if c != qn and cf and all(is_field_rec(g_.get('parent')) for g_ in cf) and callers.get(c):
+                    if c != qn and cf and all(is_field_rec(g_.get('parent')) or (not g_.get('method') and g_['l'][0] in FIELD_FILES) for g_ in cf) and callers.get(c):
                         work += list(callers[c])      # a helper of a helper
                     elif c != qn:
                         okh = False
